@@ -268,6 +268,29 @@ example : (sigmainv0 pEx eEx 0 0).done = false ∧ (sigmainv pEx eEx 0 0).1.brk 
   rw [sigmainv_unfold pEx eEx 0 0 h, h0]
   simp [newton, sigmaStep, sigma, dwdsigma, pEx, eEx]
 
+/-- **which way `Forward` obtains the Thompson coordinates** (every kernel, over `ℝ`): the pole case exactly for `lat = 90` (`u = K`, `v = 0`, `γ = lon`,
+    `k = 1`); the branch-point case exactly at the single point `lat = 0 ∧ lon − lon0 = 90(1 − e)` (`u = 0`, `v = K'`) — the comparison seeded change C06B
+    turned into `≥`; otherwise `(u, v) = zetainv(taupf(tan φ), λ)` with at most `numit_` steps -/
+theorem tmx_forward_cases (p : Par ℝ) (E : Ell ℝ) (lat lon tau : ℝ) :
+    let r := TMX.fwdKernel p E lat lon tau
+    (r.via = Via.pole ↔ lat = 90) ∧
+    (r.via = Via.branchPoint ↔ lat ≠ 90 ∧ lat = 0 ∧ lon = 90 * (1 - p.e)) ∧
+    (lat = 90 → r.u = E.Ku ∧ r.v = 0 ∧ r.gamma = lon ∧ r.k = 1) ∧
+    (lat ≠ 90 → lat = 0 → lon = 90 * (1 - p.e) → r.u = 0 ∧ r.v = E.Kv) ∧
+    (r.via = Via.newton → r.u = (zetainv p E (TM.taupf tau p.e) (lon * TMX.degree)).1.u ∧ r.v = (zetainv p E (TM.taupf tau p.e) (lon * TMX.degree)).1.v ∧
+      r.steps ≤ p.numit) :=
+  fwdKernel_cases p E lat lon tau
+
+/-- **`Reverse`**: the branch-point case exactly at `ξ = 0 ∧ η = K' − E'`, otherwise `(u, v) = sigmainv(ξ, η)`; the pole output (`lat = 90`,
+    `lon = γ = 0`, `k = 1`) exactly when the Thompson coordinates come out as `(K, 0)` -/
+theorem tmx_reverse_cases (p : Par ℝ) (E : Ell ℝ) (xi eta : ℝ) :
+    let r := TMX.revKernel p E xi eta
+    ((xi = 0 ∧ eta = E.KEv) → r.u = 0 ∧ r.v = E.Kv) ∧
+    (¬ (xi = 0 ∧ eta = E.KEv) → r.u = (sigmainv p E xi eta).1.u ∧ r.v = (sigmainv p E xi eta).1.v ∧ r.steps ≤ p.numit) ∧
+    (r.via = Via.pole ↔ (r.v = 0 ∧ r.u = E.Ku)) ∧
+    (r.via = Via.pole → r.p = 90 ∧ r.q = 0 ∧ r.gamma = 0 ∧ r.k = 1) :=
+  revKernel_cases p E xi eta
+
 /-! ## 6. exact form: the closed forms as coded are Lee's (1976), the Jacobi functions being abstract
 
 Mathlib has no Jacobi elliptic functions.  The six values `sn, cn, dn (u | e²)`, `sn, cn, dn (v | 1 − e²)` are arbitrary reals subject to
@@ -370,6 +393,19 @@ theorem tm_gauss_schreiber_sphere (τ' l : ℝ) (hh : 0 < τ' ^ 2 + Real.cos l ^
   ⟨(gs_is_sphere_tm τ' l hh).1, (gs_is_sphere_tm τ' l hh).2, (gs_gamma_k τ' l).1, (gs_gamma_k τ' l).2⟩
 
 example : (0 : ℝ) < 1 ^ 2 + Real.cos 0 ^ 2 := by norm_num
+
+/-- **(b) … and `1/cosh w` is the derivative of the Gauss–Schreiber map**: every differentiable `Z` with `sin Z = tanh` near `w` and
+    `cos Z(w)·cosh w = 1` (both hold for `ζ'` as coded, previous theorem) has `dZ/dw = 1/cosh w`; so `γ' = −arg(dζ'/dw)` (in degrees) and
+    `k' = (√(1 − e² sin²φ)/cos φ)·|dζ'/dw|`, and with `tm_forward_kernel` the returned convergence and scale are `−arg` and `|·|` (times the
+    scale of the Mercator coordinate `w`) of the derivative of the whole map `w ↦ ζ' ↦ ζ`, times `b1` -/
+theorem tm_gauss_schreiber_derivative (Z : ℂ → ℂ) (w Z' : ℂ) (hZ : HasDerivAt Z Z' w)
+    (hs : ∀ᶠ v in nhds w, Complex.sin (Z v) = Complex.tanh v) (hc : Complex.cos (Z w) * Complex.cosh w = 1) :
+    Z' = 1 / Complex.cosh w :=
+  gs_derivative Z w Z' hZ hs hc
+
+/-- the hypotheses are the two identities `tm_gauss_schreiber_sphere` establishes for `ζ'` as coded at every real `(ψ, λ)`; an explicit differentiable
+    complex branch `Z` is not constructed here (at `w = 0`, `Z(0) = 0`, the pointwise hypotheses read as below) -/
+example : Complex.cos 0 * Complex.cosh 0 = 1 ∧ Complex.sin 0 = Complex.tanh 0 := by simp
 
 /-- **(b) `Forward` (first quadrant, not the pole) as coded**: `ξ + iη = F(ζ')`, `γ = γ' − arg F'(ζ')` (degrees), `k = k'·b1·|F'(ζ')|`, with `γ'`, `k'`
     the Gauss–Schreiber values as coded — convergence and scale are the rotation and magnification of the composed map -/
